@@ -500,6 +500,19 @@ class Extractor:
         if k in ('BinaryOperator', 'CompoundAssignOperator') and (s0.get('opcode') or '').endswith('=') and s0.get('opcode') not in ('==', '!=', '<=', '>='):
             l = kids(s0)[0]
             cr = self.cell_ref(l, ienv)
+            if cr and s0.get('opcode') == '=':
+                # chained stores  A[i][j] = B[j][i] = expr;  every cell target gets the innermost right-hand side
+                targets = [cr]
+                rhs_ = kids(s0)[1]
+                while strip(rhs_).get('kind') == 'BinaryOperator' and strip(rhs_).get('opcode') == '=':
+                    c2 = self.cell_ref(kids(strip(rhs_))[0], ienv)
+                    if not c2:
+                        break
+                    targets.append(c2)
+                    rhs_ = kids(strip(rhs_))[1]
+                for t_ in targets[::-1]:
+                    self.store(t_[0], t_[1], '=', rhs_, loops, ienv, fenv, s0)
+                return
             if cr:
                 self.store(cr[0], cr[1], s0['opcode'], kids(s0)[1], loops, ienv, fenv, s0)
                 return
@@ -661,6 +674,29 @@ class Extractor:
             return
         if op not in ('=', '+=', '/=', '*='):
             raise Unsupported('store operator %s' % op)
+        if op == '=':
+            # out = (acc - c) / d  and the like: affine in exactly one accumulator -> its terms scaled, plus a constant term
+            accs = {m['referencedDecl'].get('name') for m in walk(r0) if m.get('kind') == 'DeclRefExpr' and m['referencedDecl'].get('name') in self.acc and
+                    (m['referencedDecl'].get('name') not in fenv or m['referencedDecl'].get('name') in getattr(self, 'promoted', set()))}
+            if len(accs) == 1:
+                an = list(accs)[0]
+                f2 = dict(fenv)
+                f2[an] = Rat(Poly.atom('ACC#'))
+                saved_prom = set(getattr(self, 'promoted', set()))
+                self.promoted = saved_prom - {an}
+                try:
+                    val = self.rat(rhs, ienv, f2)
+                finally:
+                    self.promoted = saved_prom
+                co = val.n.coeff('ACC#')
+                if co is not None and 'ACC#' not in val.d.atoms() and 'ACC#' not in co.atoms():
+                    a_ = Rat(co, val.d)
+                    b_ = Rat(val.n - co * Poly.atom('ACC#'), val.d)
+                    for term, lp, nd in self.acc[an]:
+                        self.emit((arr, idx), '+=', term * a_, lp, nd)
+                    if not b_.is_zero():
+                        self.emit((arr, idx), '+=', b_, loops, node)
+                    return
         self.emit((arr, idx), op, self.rat(rhs, ienv, fenv), loops, node)
 
 
